@@ -170,6 +170,7 @@ func main() {
 	seed := flag.Int("seed", 0, "solver seed")
 	dump := flag.String("dump", "", "dump the query of the obligation with this name")
 	listFns := flag.Bool("list-functions", false, "list the SSA function names contracts can bind to")
+	only := flag.String("only", "", "file with obligation names, one per line: discharge only these (retry pass)")
 	flag.Parse()
 
 	t0 := time.Now()
@@ -277,6 +278,26 @@ func main() {
 		}
 		fmt.Fprintln(os.Stderr, "no such obligation")
 		os.Exit(2)
+	}
+	if *only != "" {
+		data, err := os.ReadFile(*only)
+		if err != nil {
+			fmt.Fprintln(os.Stderr, err)
+			os.Exit(2)
+		}
+		want := map[string]bool{}
+		for _, l := range strings.Split(string(data), "\n") {
+			if l = strings.TrimSpace(l); l != "" {
+				want[l] = true
+			}
+		}
+		var sel []*Obligation
+		for _, o := range all {
+			if want[o.Name] {
+				sel = append(sel, o)
+			}
+		}
+		all = sel
 	}
 	ts := time.Now()
 	dischargeAll(all, prelude, opts)
